@@ -53,8 +53,14 @@ PROPS = {
             "str(periods.period(key)) is the canonical spelling of a key and printing a parsed period is canonical (CANON idempotent): the C05 round trip, assumed here",
             "representation invariant of the input buffer: its keys are canonical spellings (add_variable_value is the only writer)",
             "Variable.check_set_value and Variable.default_array enter as call-site contracts (returns the checked value / raises ValueError; an array of defaults)",
+            "string order of decimal numerals is uninterpreted except: irreflexive, total, numeric for numerals of equal length",
         ],
-        "not_decided": [],
+        "native_standins": "contracts.c12_builder:NATIVE_STANDINS",
+        "bounded": ["finalize_variables_init: a buffer with two periods (symbolic, units day/month/year); init_variable_values: one variable with two symbolic keys"],
+        "not_decided": ["add_group_entity / check_persons_to_allocate are not under contract (nested loops over the document): bounded stand-in on the real code only",
+                        "expand_axes / add_parallel_axis / add_perpendicular_axis (axes clause of the statement)",
+                        "Variable.check_set_value's conversions (numpy / eval_expression): only that its ValueError becomes a situation error",
+                        "build_from_dict shape dispatch, build_from_variables, build_default_simulation"],
     },
     "C19": {
         "theories": ["file system as a ghost map path -> array; storage view of C17"],
